@@ -125,3 +125,6 @@ Proof. exact (proj1 (forallb_forall site_ok wrap_sites) sweep_wrap_sites). Qed.
 Lemma access_paths_dispatch : forall doc l w w', consistent model_registry doc w -> access_run model_registry doc w l = Some w' ->
   exists n, node_at doc (w_pos w') = Some n /\ w_cls w' = dispatch (xtag n).
 Proof. intros doc l w w' C H. exact (access_run_consistent model_registry doc l w w' C H). Qed.
+
+Lemma guards_match_reference : forall e, In e ctors -> guard_matches_reference e = true.
+Proof. exact (proj1 (forallb_forall guard_matches_reference ctors) sweep_guards_match_reference). Qed.
